@@ -487,7 +487,8 @@ def check_state(ctx, c, comp, where):
             if du[1] != diff:
                 bad('duration-identity', f'duration {du[1]!r} but end - start = {diff!r}')
         if has_dur:
-            if not isinstance(dv, timedelta) or e != s + dv or (du[0] == 'ok' and du[1] != dv):
+            subday_on_date = is_d(s) and isinstance(dv, timedelta) and (dv.seconds or dv.microseconds)
+            if not isinstance(dv, timedelta) or e != s + dv or (du[0] == 'ok' and du[1] != dv and not subday_on_date):
                 bad('end-identity', f'DURATION {dv!r}: start {s!r}, end {e!r}, duration {du!r}')
         elif has_end:
             if e != ev or type(e) is not type(ev):
@@ -502,7 +503,28 @@ def check_state(ctx, c, comp, where):
         bad('end-identity', f'only DTSTART {st[1]!r} but end gave {en!r}')
 
 
-def oracle_seq(ctx, c, prov, ops):
+class SubDate(date):
+    """a date that is an instance of a subclass (what time-freezing libraries and date helpers hand out)"""
+
+
+class SubDateTime(datetime):
+    pass
+
+
+def exotic_of(obj, mode):
+    """the same value as another kind of Python object: subclass instances; a duration with microseconds"""
+    if mode == 0 or obj is None:
+        return obj
+    if isinstance(obj, datetime):
+        return SubDateTime(obj.year, obj.month, obj.day, obj.hour, obj.minute, obj.second, obj.microsecond, tzinfo=obj.tzinfo, fold=obj.fold)
+    if isinstance(obj, date):
+        return SubDate(obj.year, obj.month, obj.day)
+    if isinstance(obj, timedelta) and mode == 2:
+        return obj + timedelta(microseconds=1)
+    return obj
+
+
+def oracle_seq(ctx, c, prov, ops, exotic=0):
     """run one history on the real code, checking the property after every step"""
     comp = cls_of(c)()
     edits_only = True
@@ -510,7 +532,8 @@ def oracle_seq(ctx, c, prov, ops):
     for op in ops:
         obj = build(op[2]) if op[0] != 'd' else None
         done.append(enc_op(op, obj))
-        where = {'cls': c, 'prov': prov, 'ops': list(done)}
+        obj = exotic_of(obj, exotic)
+        where = {'cls': c, 'prov': prov, 'ops': list(done), 'exotic': exotic}
         before = {k: comp.get(k) for k in KEYS}
         try:
             apply_op(comp, op, obj)
@@ -548,6 +571,16 @@ CORPUS = [
     ('T', [('s', 'DTSTART', ('D', D0)), ('s', 'DURATION', ('T', 3600))]),
     ('E', [('a', 'DTSTART', ('D', D0)), ('a', 'DTSTART', ('D', D0))]),
 ]
+EXOTIC_CORPUS = [
+    [('s', 'DTSTART', ('D', D0))],
+    [('s', 'start', ('D', D0))],
+    [('s', 'start', ('D', D0)), ('s', 'end', ('D', D0 + 3))],
+    [('s', 'DTSTART', ('D', D0)), ('s', 'DURATION', ('T', 172800))],
+    [('s', 'DTSTART', ('D', D0)), ('s', 'DURATION', ('T', 172800)), ('d', 'DURATION')],
+    [('s', 'DTSTART', ('F', W0)), ('s', 'DURATION', ('T', 3600))],
+    [('a', 'DTSTART', ('D', D0)), ('a', 'DURATION', ('T', 86400))],
+]
+
 CORPUS_ICS = [
     ('E', 'BEGIN:VEVENT\r\nDTSTART;VALUE=DATE:20200101\r\nDURATION:20200103\r\nEND:VEVENT\r\n'),
     ('E', 'BEGIN:VEVENT\r\nDTSTART:20200101T100000\r\nDURATION:20200103T000000\r\nEND:VEVENT\r\n'),
@@ -566,6 +599,11 @@ def oracle(ctx):
             for c, ops in CORPUS:
                 ctx.evaluated(('corpus', prov, c, tuple(ops)))
                 oracle_seq(ctx, c, prov, ops)
+            for c in CLASSES:
+                for mode in (1, 2):
+                    for ops in EXOTIC_CORPUS:
+                        ctx.evaluated(('exotic-corpus', prov, c, mode, tuple(ops)))
+                        oracle_seq(ctx, c, prov, ops, exotic=mode)
             for c, text in CORPUS_ICS:
                 ctx.evaluated(('ics', prov, text))
                 comp = cls_of(c).from_ical(text)
@@ -591,6 +629,10 @@ def oracle(ctx):
                         ops = [o for o in ops if o[0] != 'a'] or ops        # pure setter/deleter histories
                     ctx.evaluated((prov, c, tuple(ops)))
                     oracle_seq(ctx, c, prov, ops)
+                    if ctx.rng.random() < 0.5:
+                        mode = ctx.rng.choice([1, 2])
+                        ctx.evaluated((prov, c, tuple(ops), 'exotic', mode))
+                        oracle_seq(ctx, c, prov, ops, exotic=mode)
                 for _ in range(ctx.vol(300)):
                     lines = rand_parsed(ctx.rng, c)
                     got = parse_case(c, lines)
@@ -642,7 +684,7 @@ def replay(ctx, data):
             comp = cls_of(inp['cls']).from_ical(inp['ics'])
             check_state(ctx, inp['cls'], comp, inp)
         else:
-            oracle_seq(ctx, inp['cls'], inp.get('prov', 'z'), [dec_op(f) for f in inp['ops']])
+            oracle_seq(ctx, inp['cls'], inp.get('prov', 'z'), [dec_op(f) for f in inp['ops']], exotic=inp.get('exotic', 0))
     finally:
         icalendar.use_zoneinfo()
     for v in ctx.violations:
